@@ -2,12 +2,24 @@ use fnv::FnvHasher;
 use probminhash::setsketcher::{SetSketchParams, SetSketcher};
 use std::hash::BuildHasherDefault;
 
-fn ss(m: u64, items: &[u64]) -> (Vec<u16>, i64, u64) {
-    let mut s: SetSketcher<u16, u64, FnvHasher> = SetSketcher::new(SetSketchParams::new(1.001, m, 20., 65534), BuildHasherDefault::<FnvHasher>::default());
-    for it in items {
-        s.sketch(it).unwrap();
+/// configurations: 0 = u16 registers, b = 1.001 (documented default); 1 = u16, b = 1.0001 (registers reach u16::MAX = q + 1);
+/// 2 = u8 registers, b = 1.01, q = 254 (saturating registers); 3 = u16, b = 2, a = 1 (small integer levels, many ties)
+fn ss(cfg: usize, m: u64, items: &[u64]) -> (Vec<u64>, i64, u64) {
+    macro_rules! run {
+        ($ty:ty, $b:expr, $a:expr, $q:expr) => {{
+            let mut s: SetSketcher<$ty, u64, FnvHasher> = SetSketcher::new(SetSketchParams::new($b, m, $a, $q), BuildHasherDefault::<FnvHasher>::default());
+            for it in items {
+                s.sketch(it).unwrap();
+            }
+            (s.get_signature().iter().map(|x| *x as u64).collect::<Vec<u64>>(), s.get_low_sketch(), s.get_nb_overflow())
+        }};
     }
-    (s.get_signature().clone(), s.get_low_sketch(), s.get_nb_overflow())
+    match cfg {
+        0 => run!(u16, 1.001, 20., 65534),
+        1 => run!(u16, 1.0001, 20., 65534),
+        2 => run!(u8, 1.01, 20., 254),
+        _ => run!(u16, 2.0, 1., 30),
+    }
 }
 
 fn main() {
@@ -20,26 +32,29 @@ fn main() {
     };
     let t0 = std::time::Instant::now();
     let mut trials = 0u64;
-    for m in [2u64, 3, 4, 8, 64, 512].iter().cycle() {
+    let mut cfg = 0usize;
+    for m in [2u64, 3, 4, 8, 64, 512, 1, 5, 7].iter().cycle() {
+        cfg = (cfg + 1) % 4;
         if t0.elapsed().as_secs() > 25 {
             break;
         }
         let n = 1 + (next() % 40) as usize;
         let items: Vec<u64> = (0..n).map(|_| next() % 100_000).collect();
-        let a = ss(*m, &items);
+        let a = ss(cfg, *m, &items);
         let mut rev = items.clone();
         rev.reverse();
-        let b = ss(*m, &rev);
+        let b = ss(cfg, *m, &rev);
         let mut dup = items.clone();
         dup.push(items[0]);
         dup.insert(n / 2, items[n - 1]);
-        let c = ss(*m, &dup);
+        let c = ss(cfg, *m, &dup);
         trials += 1;
         if a.0 != b.0 || a.0 != c.0 {
-            println!("MISMATCH setsketch m={} items={:?}\n forward   {:?}\n reversed  {:?}\n with dups {:?}", m, items, a.0, b.0, c.0);
+            println!("MISMATCH setsketch cfg={} m={} items={:?}\n forward   {:?}\n reversed  {:?}\n with dups {:?}", cfg, m, items, a.0, b.0, c.0);
             return;
         }
         let minreg = *a.0.iter().min().unwrap() as i64;
+        let _ = cfg;
         if a.1 > minreg || b.1 > minreg {
             println!("MISMATCH setsketch m={} items={:?}: reported low sketch {} exceeds the minimum register {}", m, items, a.1, minreg);
             return;
